@@ -1,7 +1,7 @@
 (** C17 item 1 over M-SQLITE: executing a plan and then the reverse statements of its changes,
     last change first, returns the engine to the state it started from. *)
 From Coq Require Import List NArith ZArith Bool Arith Lia.
-From Atlas Require Import Base.Bytes Diff.Schema Diff.DiffModel Diff.DiffSqlite Diff.DiffProofs
+From Atlas Require Import Base.Bytes Diff.Schema Diff.DiffModel Diff.DiffSqlite Diff.DiffProofs Lex.DownProofs
   Lex.DownModel Sqlite.PlanModel Sqlite.EngineModel Sqlite.InspectModel Sqlite.ReverseModel.
 Import ListNotations.
 
@@ -664,4 +664,224 @@ Proof.
     destruct (additive_step _ _ _ A1 S1 W Em) as [Hrev Wm].
     unfold down_stmts. simpl. rewrite flat_map_app. simpl. rewrite app_nil_r.
     rewrite exec_all_app. fold (down_stmts l). rewrite (IH dm d1 Wm A2 S2 E). exact Hrev.
+Qed.
+
+(** * the planner: what a reversible plan without drops consists of *)
+
+Definition good (pc : pchange) : bool := additive pc && stmt_wf (pc_cmd pc).
+Definition okc (pc : pchange) : bool := good pc || negb (pc_has_reverse pc).
+
+Lemma good_okc l : forallb good l = true -> forallb okc l = true.
+Proof. apply forallb_impl. intros pc H. unfold okc. now rewrite H. Qed.
+
+Lemma addIndexes_good t l r : addIndexes t l = Some r -> forallb good r = true.
+Proof.
+  revert r; induction l as [|i l IH]; simpl; intros r H.
+  - inversion H; reflexivity.
+  - destruct (normalize_idx_name i t) as [i'|]; [|discriminate].
+    destruct (addIndexes t l) as [r'|]; [|discriminate]. inversion H; subst r. simpl.
+    rewrite (IH r' eq_refl), andb_true_r. unfold good, additive. simpl.
+    now rewrite str_eqb_refl.
+Qed.
+
+Lemma x_wf_same_cols x t' :
+  t_cols t' = t_cols (x_t x) -> x_wf (set_x_t x t') = x_wf x.
+Proof.
+  intros E. unfold x_wf, set_x_t. simpl. unfold has_col. now rewrite E.
+Qed.
+
+Lemma addTable_good x r : x_wf x = true -> addTable x = Some r -> forallb good r = true.
+Proof.
+  unfold addTable. intros W H.
+  destruct (negb (forallb (column_ok x) (t_cols (x_t x)))); [discriminate|].
+  destruct (addIndexes (x_t x) (t_idx (x_t x))) as [idxs|] eqn:E; [|discriminate].
+  inversion H; subst r. simpl. rewrite (addIndexes_good _ _ _ E), andb_true_r.
+  unfold good, additive. simpl. rewrite str_eqb_refl. simpl.
+  rewrite x_wf_same_cols by reflexivity. exact W.
+Qed.
+
+Lemma find_col_name n l c : find_col n l = Some c -> c_name c = n.
+Proof.
+  unfold find_col. intros H. apply find_some in H as [_ H]. now apply str_eqb_eq in H.
+Qed.
+
+Lemma alterTable_good from tox cs : forall r,
+  forallb no_drop_sub cs = true -> alterTable from tox cs = Some r -> forallb good r = true.
+Proof.
+  induction cs as [|c cs IH]; intros r ND H; simpl in H.
+  - inversion H; reflexivity.
+  - simpl in ND. apply andb_true_iff in ND as [N1 N2].
+    match type of H with match ?here with _ => _ end = _ => destruct here as [a|] eqn:Eh; [|discriminate] end.
+    destruct (alterTable from tox cs) as [b|] eqn:Eb; [|discriminate].
+    inversion H; subst r. rewrite forallb_app, (IH b N2 eq_refl), andb_true_r.
+    destruct c; try discriminate.
+    + (* AddColumn *)
+      destruct (find_col c (t_cols (x_t tox))) as [col|] eqn:Ec; [|discriminate].
+      destruct (column_ok tox col); [|discriminate]. inversion Eh; subst a. simpl.
+      unfold good, additive. simpl. rewrite str_eqb_refl, (find_col_name _ _ _ Ec), str_eqb_refl. reflexivity.
+    + (* AddIndex *)
+      destruct (find_idx n (t_idx (x_t tox))) as [[k i]|]; [|discriminate].
+      exact (addIndexes_good (x_t tox) [i] a Eh).
+Qed.
+
+Lemma forallb_has_reverse_app a b :
+  forallb pc_has_reverse (a ++ b) = forallb pc_has_reverse a && forallb pc_has_reverse b.
+Proof. apply forallb_app. Qed.
+
+Lemma modifyTable_ok from tox cs r sk :
+  x_wf tox = true -> forallb no_drop_sub cs = true ->
+  modifyTable from tox cs = Some (r, sk) ->
+  forallb okc r = true /\ (sk = true -> forallb pc_has_reverse r = false).
+Proof.
+  unfold modifyTable. intros W ND H.
+  destruct (alterable (x_t tox) cs).
+  - destruct (alterTable from tox cs) as [r'|] eqn:E; [|discriminate]. inversion H; subst r sk.
+    split; [apply good_okc; exact (alterTable_good _ _ _ _ ND E)|discriminate].
+  - match type of H with match addTable ?X with _ => _ end = _ => destruct (addTable X) as [created|] eqn:Ea; [|discriminate] end.
+    match type of H with match copyRows ?A ?B ?C with _ => _ end = _ => destruct (copyRows A B C) as [ins|] eqn:Ei; [|discriminate] end.
+    destruct (addIndexes (x_t tox) (t_idx (x_t tox))) as [idxs|] eqn:Ex; [|discriminate].
+    inversion H; subst r sk. clear H.
+    assert (Gc : forallb good created = true).
+    { refine (addTable_good _ _ _ Ea). rewrite x_wf_same_cols by reflexivity. exact W. }
+    assert (Oi : forallb okc (match ins with Some i => [i] | None => [] end) = true).
+    { destruct ins as [i|]; [|reflexivity]. unfold copyRows in Ei.
+      destruct (copy_cols _ cs) as [[|pr prs]|]; try discriminate; inversion Ei; reflexivity. }
+    split.
+    + rewrite forallb_app, (good_okc _ Gc). rewrite forallb_app, Oi. simpl.
+      exact (good_okc _ (addIndexes_good _ _ _ Ex)).
+    + intros _. rewrite forallb_has_reverse_app. rewrite forallb_has_reverse_app. simpl.
+      now rewrite !andb_false_r.
+Qed.
+
+Definition ps_inv (s : pstate) : Prop :=
+  forallb okc (ps_changes s) = true /\
+  (ps_skipFKs s = true -> forallb pc_has_reverse (ps_changes s) = false).
+
+Lemma find_xtable_in n l x : find_xtable n l = Some x -> In x l.
+Proof. unfold find_xtable. intros H. now apply find_some in H. Qed.
+
+Lemma normalized_to_wf x x' : normalized_to x = Some x' -> x_wf x' = x_wf x.
+Proof.
+  unfold normalized_to. destruct (normalize_idxs (x_t x) (t_idx (x_t x))); [|discriminate].
+  intros H; inversion H. now apply x_wf_same_cols.
+Qed.
+
+Lemma plan_loop_inv from to cs : forall s s',
+  xschema_wf to = true -> no_drops cs = true -> ps_inv s ->
+  plan_loop from to cs s = Some s' -> ps_inv s'.
+Proof.
+  induction cs as [|c cs IH]; intros s s' XW ND I H; simpl in H.
+  - inversion H; subst; exact I.
+  - simpl in ND. apply andb_true_iff in ND as [N1 N2].
+    match type of H with match ?nx with _ => _ end = _ => destruct nx as [sm|] eqn:En; [|discriminate] end.
+    apply (IH sm s' XW N2); [|exact H]. clear H IH.
+    destruct I as [I1 I2]. destruct c as [n|n|n sub]; [| discriminate |].
+    + (* AddTable *)
+      destruct (find_xtable n to) as [x|] eqn:Ef; [|discriminate].
+      destruct (addTable x) as [r|] eqn:Ea; [|discriminate]. inversion En; subst sm.
+      assert (Wx : x_wf x = true).
+      { unfold xschema_wf in XW. rewrite forallb_forall in XW. exact (XW x (find_xtable_in _ _ _ Ef)). }
+      split; simpl.
+      * rewrite forallb_app, I1. exact (good_okc _ (addTable_good _ _ Wx Ea)).
+      * intros Hs. rewrite forallb_has_reverse_app, (I2 Hs). reflexivity.
+    + (* ModifyTable *)
+      destruct (find_xtable n from) as [xf|]; [|discriminate].
+      destruct (find_xtable n to) as [xt|] eqn:Ef; [|discriminate].
+      destruct (normalized_to xt) as [xt'|] eqn:Enorm; [|discriminate].
+      destruct (modifyTable (x_t xf) xt' sub) as [[r sk]|] eqn:Em; [|discriminate].
+      assert (Wx : x_wf xt' = true).
+      { rewrite (normalized_to_wf _ _ Enorm). unfold xschema_wf in XW. rewrite forallb_forall in XW.
+        exact (XW xt (find_xtable_in _ _ _ Ef)). }
+      destruct (modifyTable_ok _ _ _ _ _ Wx N1 Em) as [O1 O2].
+      inversion En; subst sm. destruct sk; split; simpl.
+      * now rewrite forallb_app, I1, O1.
+      * intros _. rewrite forallb_has_reverse_app, (O2 eq_refl). now rewrite andb_false_r.
+      * now rewrite forallb_app, I1, O1.
+      * intros Hs. rewrite forallb_has_reverse_app, (I2 Hs). reflexivity.
+Qed.
+
+Lemma set_reversible_spec l : set_reversible l = forallb pc_has_reverse l.
+Proof. reflexivity. Qed.
+
+Lemma okc_reversible_good l :
+  forallb okc l = true -> forallb pc_has_reverse l = true -> forallb good l = true.
+Proof.
+  induction l as [|pc l IH]; simpl; [auto|]. intros O R.
+  apply andb_true_iff in O as [O1 O2]. apply andb_true_iff in R as [R1 R2].
+  rewrite (IH O2 R2), andb_true_r. unfold okc in O1. rewrite R1 in O1. simpl in O1.
+  now rewrite orb_false_r in O1.
+Qed.
+
+Lemma plan_additive from to cs p :
+  xschema_wf to = true -> no_drops cs = true ->
+  PlanChanges from to cs = Some p -> p_reversible p = true ->
+  forallb additive (p_changes p) = true /\
+  forallb (fun pc => stmt_wf (pc_cmd pc)) (p_changes p) = true.
+Proof.
+  unfold PlanChanges. intros XW ND H R.
+  destruct (plan_loop from to cs (mkPS [] false)) as [s|] eqn:El; [|discriminate].
+  assert (I : ps_inv s).
+  { refine (plan_loop_inv _ _ _ (mkPS [] false) s XW ND _ El).
+    split; [reflexivity|discriminate]. }
+  destruct I as [I1 I2]. inversion H; subst p; clear H. simpl in R. rewrite set_reversible_spec in R.
+  destruct (ps_skipFKs s); [rewrite (I2 eq_refl) in R; discriminate|].
+  simpl. pose proof (okc_reversible_good _ I1 R) as G.
+  split; [exact (forallb_impl _ _ _ (fun pc Hg => proj1 (andb_prop _ _ Hg)) G)
+         |exact (forallb_impl _ _ _ (fun pc Hg => proj2 (andb_prop _ _ Hg)) G)].
+Qed.
+
+(** C17 item 1 for the plans without DropTable / DropIndex: the final state IS the start state. *)
+Theorem reversible_sound_additive from to cs p d d1 :
+  db_wf d = true -> xschema_wf to = true -> no_drops cs = true ->
+  PlanChanges from to cs = Some p -> p_reversible p = true ->
+  exec_all d (up_stmts (p_changes p)) = Ok d1 ->
+  exec_all d1 (down_stmts (p_changes p)) = Ok d.
+Proof.
+  intros W XW ND HP R E. destruct (plan_additive _ _ _ _ XW ND HP R) as [A S].
+  exact (additive_sound _ _ _ W A S E).
+Qed.
+
+(** * the flag of the SQLite planner *)
+
+(** [PlanChanges] computes [Reversible] over the changes it planned and adds the PRAGMA bracket
+    afterwards. *)
+Lemma sqlite_flag_except from to cs p :
+  PlanChanges from to cs = Some p ->
+  exists core,
+    (p_changes p = core \/ p_changes p = pragma_off :: core ++ [pragma_on]) /\
+    p_reversible p = forallb pc_has_reverse core.
+Proof.
+  unfold PlanChanges. intros H.
+  destruct (plan_loop from to cs (mkPS [] false)) as [s|]; [|discriminate].
+  inversion H; subst p; clear H. exists (ps_changes s). simpl. split; [|reflexivity].
+  destruct (ps_skipFKs s); [right|left]; reflexivity.
+Qed.
+
+(** through [to_mchange], [sqlx.SetReversible] of the Go-level change list is the model's flag *)
+Lemma ReverseStmts_to_mchange render comment pc :
+  ReverseStmts (to_mchange render comment pc) = map render (pc_reverse pc).
+Proof.
+  unfold to_mchange, ReverseStmts. simpl. destruct (pc_reverse pc) as [|r [|r2 l]]; reflexivity.
+Qed.
+
+Lemma has_reverse_to_mchange render comment pc :
+  has_reverse (to_mchange render comment pc) = pc_has_reverse pc.
+Proof.
+  unfold has_reverse. rewrite ReverseStmts_to_mchange. unfold pc_has_reverse.
+  destruct (pc_reverse pc); reflexivity.
+Qed.
+
+Lemma SetReversible_to_mchange render comment l :
+  SetReversible (map (to_mchange render comment) l) = forallb pc_has_reverse l.
+Proof.
+  rewrite DownProofs.SetReversible_forallb. induction l as [|pc l IH]; simpl; [reflexivity|].
+  now rewrite has_reverse_to_mchange, IH.
+Qed.
+
+(** the down statements of the Go-level list are the rendered down statements of the model *)
+Lemma flat_ReverseStmts_to_mchange render comment l :
+  flat_map ReverseStmts (rev (map (to_mchange render comment) l)) = map render (down_stmts l).
+Proof.
+  unfold down_stmts. rewrite <- map_rev. induction (rev l) as [|pc r IH]; simpl; [reflexivity|].
+  now rewrite ReverseStmts_to_mchange, IH, map_app.
 Qed.
